@@ -2,7 +2,14 @@
 
 package gowarc
 
-import "github.com/nlnwa/gowarc/v2/internal/diskbuffer"
+import (
+	"bufio"
+	"errors"
+	"io"
+	"strings"
+
+	"github.com/nlnwa/gowarc/v2/internal/diskbuffer"
+)
 
 // Exports for the /verif correspondence harness. This file is NOT part of /repo: it is compiled into the
 // package through `go build -overlay` only, together with -tags verif.
@@ -26,4 +33,175 @@ func VerifNewBuffer(maxMem, hint int64, tmpDir string) VerifBuffer {
 		opts = append(opts, diskbuffer.WithMemBufferSizeHint(hint))
 	}
 	return diskbuffer.New(opts...)
+}
+
+// ---- digest.go
+
+// VerifDigest: parse a digest field value, feed data, report (name, normalised hash, encoding, valid, format()).
+func VerifDigest(value string, dflt uint8, data []byte) (name, hash string, enc uint8, valid bool, format string, err error) {
+	d, e := newDigest(value, digestEncoding(dflt))
+	if e != nil {
+		return "", "", 0, false, "", e
+	}
+	_, _ = d.Write(data)
+	return d.name, d.hash, uint8(d.encoding), d.validate() == nil, d.format(), nil
+}
+
+func VerifEncode(enc uint8, alg string, data []byte) string {
+	d, _ := newDigest(alg, digestEncoding(enc))
+	_, _ = d.Write(data)
+	return digestEncoding(enc).encode(d)
+}
+
+func VerifDecode(enc uint8, s string) ([]byte, error) { return digestEncoding(enc).decode(s) }
+
+// ---- header parser
+
+var ErrVerifFault = errors.New("verif: injected reader fault")
+
+// VerifStream delivers data and then io.EOF, or — if Fault — ErrVerifFault on every further call (sticky).
+type VerifStream struct {
+	Data  []byte
+	Fault bool
+	Style int // 0 whole, 1 one byte at a time, 2 half of the request, 3 data together with the end condition
+	pos   int
+}
+
+func (s *VerifStream) Read(p []byte) (int, error) {
+	end := io.EOF
+	if s.Fault {
+		end = ErrVerifFault
+	}
+	if s.pos >= len(s.Data) {
+		return 0, end
+	}
+	n := len(p)
+	switch s.Style {
+	case 1:
+		n = 1
+	case 2:
+		n = (len(p) + 1) / 2
+	}
+	if n > len(s.Data)-s.pos {
+		n = len(s.Data) - s.pos
+	}
+	copy(p, s.Data[s.pos:s.pos+n])
+	s.pos += n
+	if s.Style == 3 && s.pos >= len(s.Data) {
+		return n, end
+	}
+	return n, nil
+}
+
+func (s *VerifStream) Remaining() int { return len(s.Data) - s.pos }
+
+// VerifClassify maps an error of gowarc to the small class the correspondence compares.
+func VerifClassify(err error) string {
+	if err == nil {
+		return "nil"
+	}
+	if err == io.EOF {
+		return "eof"
+	}
+	if err == io.ErrUnexpectedEOF {
+		return "unexpectedEof"
+	}
+	if errors.Is(err, ErrVerifFault) {
+		return "reader"
+	}
+	if err == errEndOfHeaders {
+		return "eoh"
+	}
+	msg := err.Error()
+	var se *SyntaxError
+	if errors.As(err, &se) {
+		m := se.msg
+		if m == "error in warc fields block" {
+			return "wfBlock"
+		}
+		switch {
+		case strings.HasPrefix(m, "missing carriage return"):
+			return "synMissingCR"
+		case m == "missing newline":
+			return "synMissingNewline"
+		case m == "error decoding line":
+			return "synDecode"
+		case strings.HasPrefix(m, "could not parse header line"):
+			return "synMissingColon"
+		case strings.HasPrefix(m, "record was found"):
+			return "synJunk"
+		case m == "expected start of record":
+			return "synStart"
+		case m == "missing record version":
+			return "versionMissing"
+		}
+		return "other-syntax:" + m
+	}
+	var he *HeaderFieldError
+	if errors.As(err, &he) {
+		switch {
+		case he.msg == "field occurs more than once":
+			return "hdrDuplicate"
+		case strings.HasPrefix(he.msg, "missing required field: "+ContentType):
+			return "hdrMissingCT"
+		case strings.HasPrefix(he.msg, "missing required field"):
+			return "hdrMissing"
+		case strings.HasPrefix(he.msg, "not allowed for record type"):
+			return "hdrConcurrent"
+		}
+		return "hdrField"
+	}
+	switch {
+	case msg == "missing End of WARC-Fields marker":
+		return "missingEofMarker"
+	case msg == "missing required field WARC-Type":
+		return "hdrNoType"
+	case strings.HasPrefix(msg, "unrecognized value"):
+		return "hdrUnknownType"
+	case strings.HasPrefix(msg, "unsupported WARC version"):
+		return "specVersion"
+	case strings.HasPrefix(msg, "content length mismatch"):
+		return "length"
+	case strings.HasPrefix(msg, "block: "):
+		return "digestBlock"
+	case strings.HasPrefix(msg, "payload: "):
+		return "digestPayload"
+	case strings.HasPrefix(msg, "unsupported digest algorithm"):
+		return "digestAlg"
+	case strings.HasPrefix(msg, "not a http block"):
+		return "notHttp"
+	case err == errMissingEndOfHeaders:
+		return "httpEoh"
+	case strings.HasPrefix(msg, "error in http"):
+		return "httpParse"
+	case strings.Contains(msg, "end of record marker") || strings.HasPrefix(msg, "unexpected end of record"):
+		return "specTrailer"
+	case strings.Contains(msg, "unexpected EOF"):
+		return "unexpectedEof"
+	}
+	return "other"
+}
+
+func VerifOptions(syn, spec, unk, blk int, extra ...WarcRecordOption) []WarcRecordOption {
+	o := []WarcRecordOption{WithSyntaxErrorPolicy(errorPolicy(syn)), WithSpecViolationPolicy(errorPolicy(spec)),
+		WithUnknownRecordTypePolicy(errorPolicy(unk)), WithBlockErrorPolicy(errorPolicy(blk))}
+	return append(o, extra...)
+}
+
+// VerifParseFields runs warcfieldsParser.Parse.
+func VerifParseFields(syn int, s *VerifStream) (pairs [][2]string, findings []string, rest int, errTag string) {
+	p := &warcfieldsParser{Options: newOptions(WithSyntaxErrorPolicy(errorPolicy(syn)))}
+	v := &Validation{}
+	br := bufio.NewReaderSize(s, 16)
+	wf, err := p.Parse(br, v, &position{})
+	for _, e := range *v {
+		findings = append(findings, VerifClassify(e))
+	}
+	if err != nil {
+		return nil, findings, 0, VerifClassify(err)
+	}
+	for _, nv := range *wf {
+		pairs = append(pairs, [2]string{nv.Name, nv.Value})
+	}
+	return pairs, findings, br.Buffered() + s.Remaining(), ""
 }
